@@ -128,6 +128,9 @@ func (v *Verifier) discharge(o *Obligation, dir string, timeoutMs int, all bool)
 		if i > 0 && !all && tmo > 10000 {
 			tmo = 10000 // fall-back solvers get a shorter budget in the quick tier
 		}
+		if all && o.Result != "" && tmo > 20000 {
+			tmo = 20000 // thorough tier: the obligation is decided, the other solvers only cross-check it
+		}
 		res, out, ms := runSolver(context.Background(), solvers[sn], file, tmo)
 		o.Ms += ms
 		outs = append(outs, fmt.Sprintf("%s: %s (%d ms)", sn, res, ms))
